@@ -2,6 +2,7 @@ package sim
 
 import (
 	"fmt"
+	"os"
 	"sort"
 
 	_state "github.com/mosaicnetworks/babble/src/node/state"
@@ -118,7 +119,7 @@ func init() {
 				// applications that submit follow-up transactions from inside the commit callback
 				cfg.PCommitSubmit = 0.3
 			}
-			if r.Bool(0.3) {
+			if r.Bool(0.4) {
 				// a short lopsided prefix (one rarely scheduled validator, truncated
 				// syncs), then the fair schedule: activity stops while the fame of some
 				// witness is still open and later rounds are already decided
@@ -150,6 +151,15 @@ func init() {
 				cfg.Straggler = 0
 				cfg.Steps = r3.Range(60, 140)
 			}
+			if r4 := NewRNG(Mix(r.U64(), 0x70726570)); r4.Bool(0.08) || os.Getenv("SIM_PREPARED_ONLY") != "" {
+				// real persistent nodes bootstrapped from a database that holds a
+				// synthetic history with a deep election open at its tail
+				cfg.Prepared = true
+				cfg.Synthetic = false
+				cfg.PCommitSubmit = 0
+				cfg.SyncLimit = 1000
+				return cfg
+			}
 			if r2 := NewRNG(Mix(r.U64(), 0x64656570)); r2.Bool(0.15) {
 				// a synthetic history whose longest election survives one or two coin
 				// rounds (coin bits ground), then fair gossip among all validators:
@@ -160,6 +170,10 @@ func init() {
 			return cfg
 		},
 		run: func(c *Cluster, spec *runSpec) {
+			if c.cfg.Prepared {
+				c.preparedRun(spec)
+				return
+			}
 			if c.cfg.Synthetic {
 				c.synthRun(spec)
 				return
